@@ -508,6 +508,30 @@ class Sut(object):
                 c = self.real[t].copy()
             except Exception as e:
                 raise Violation('copy-raises', core.exc_detail(e))
+            # the copy tells the same about every segment (position in the set, source line included) ...
+            a_ = [(x['segment'].format(), x.get('seg_count'), x.get('cur_line_number')) for x in self.real[t].iterate_segments()]
+            b_ = [(x['segment'].format(), x.get('seg_count'), x.get('cur_line_number')) for x in c.iterate_segments()]
+            if a_ != b_:
+                j_ = [i for i in range(min(len(a_), len(b_))) if a_[i] != b_[i]][:1]
+                raise Violation('copy-differs', 'segment #%s: original %r, copy %r' % (j_, a_[j_[0]] if j_ else len(a_), b_[j_[0]] if j_ else len(b_)))
+            # ... and a copy of a part of the tree is no handle on the rest of it: a path that climbs out of the copy must not
+            # change the original
+            subs_ = [x for x in self.real[t].children if x.type == 'loop']
+            segs_ = [x for x in self.real[t].children if x.type == 'seg']
+            if subs_ and segs_:
+                before_ = serial_r(self.real[t])
+                part_ = subs_[0].copy()
+                for p_ in ('../%s01' % segs_[0].id, '../%s02' % segs_[0].id):
+                    try:
+                        part_.set_value(p_, 'QQ')
+                    except Exception:
+                        pass
+                try:
+                    part_.delete_node('../' + subs_[0].id)
+                except Exception:
+                    pass
+                if serial_r(self.real[t]) != before_:
+                    raise Violation('copy-reaches-original', 'a write or delete through ../ on a copy of loop %s changed the original tree' % subs_[0].id)
             self.real.append(c)
             self.model.append(mcopy(self.model[t]))
             self.flags.add('copy')
